@@ -126,6 +126,8 @@ func parseThis(graphBuilder *AuthorizationModelGraphBuilder, parentNode graph.No
 	}
 
 	for _, directlyRelatedDef := range directlyRelated {
+		curNode = nil
+
 		if directlyRelatedDef.GetRelationOrWildcard() == nil {
 			// direct assignment to concrete type
 			assignableType := directlyRelatedDef.GetType()
@@ -142,6 +144,11 @@ func parseThis(graphBuilder *AuthorizationModelGraphBuilder, parentNode graph.No
 			// direct assignment to userset
 			assignableUserset := directlyRelatedDef.GetType() + "#" + directlyRelatedDef.GetRelation()
 			curNode = graphBuilder.getOrAddNode(assignableUserset, assignableUserset, SpecificTypeAndRelation)
+		}
+
+		if curNode == nil {
+			// a reference whose relation or wildcard part is present but empty names no node
+			continue
 		}
 
 		// de-dup types that are conditioned, e.g. if define viewer: [user, user with condX]
